@@ -2,6 +2,7 @@
    and print tags (lemmas behind Props/C09.v). *)
 From Coq Require Import NArith List Bool Lia PeanoNat Permutation Sorted.
 From GT Require Import Base.GErrStr.
+From GT Require Import GErrExtDesc.
 From GT Require Import GErrModel GErrSpec GErrProofs.
 Import ListNotations.
 
@@ -208,4 +209,200 @@ Lemma ext_head_no_print g x :
   filter f_print (x_fields x) = [] -> ext_error_head g x = error_head g.
 Proof.
   intros H. unfold ext_error_head, fields_to_print. rewrite H. reflexivity.
+Qed.
+
+(* ---------------------------------------------------------------- regenerated descriptions *)
+(* a type whose Error() has the description [expected_desc fields] prints the head the model says,
+   and one whose toPrimaryType copies [expected_primary fields] clones as the model says
+   (GErrExtDesc.v; the descriptions are regenerated from the generated code on every run) *)
+Lemma own_val_in fs f :
+  NoDup (map f_name fs) -> In f fs -> own_val fs (f_name f) = f_val f.
+Proof.
+  induction fs as [|h t IH]; intros N I; [destruct I|].
+  simpl in N. inversion N as [|? ? Hn Nt]; subst. simpl.
+  destruct I as [->|I].
+  - rewrite str_eqb_refl. reflexivity.
+  - destruct (str_eqb (f_name h) (f_name f)) eqn:E.
+    + apply str_eqb_eq in E. exfalso. apply Hn. rewrite E. apply in_map. exact I.
+    + apply IH; assumption.
+Qed.
+
+Lemma desc_prefix g x :
+  eval_desc g x [PIf lit_name (PBase BName) lit_sep; PIf lit_dtag (PBase BDTag) lit_sep;
+                 PIf lit_source (PBase BSource) lit_sep] = error_prefix g.
+Proof.
+  unfold eval_desc, error_prefix. simpl. rewrite app_nil_r. reflexivity.
+Qed.
+
+Lemma eval_desc_app g x a b : eval_desc g x (a ++ b) = eval_desc g x a ++ eval_desc g x b.
+Proof. unfold eval_desc. rewrite map_app, concat_app. reflexivity. Qed.
+
+Lemma desc_fields g x l :
+  NoDup (map f_name (x_fields x)) -> (forall f, In f l -> In f (x_fields x)) ->
+  eval_desc g x (map (fun f => PField (print_name f) (f_name f) lit_sep) l)
+  = concat (map field_segment l).
+Proof.
+  intros N Sub. induction l as [|f l IH]; [reflexivity|].
+  unfold eval_desc in *. cbn [map concat eval_item].
+  rewrite IH by (intros f0 H; apply Sub; right; exact H).
+  rewrite (own_val_in _ f N (Sub f (or_introl eq_refl))). reflexivity.
+Qed.
+
+Lemma desc_head g x :
+  NoDup (map f_name (x_fields x)) ->
+  eval_desc g x (expected_desc (x_fields x)) = ext_error_head g x.
+Proof.
+  intros N. unfold expected_desc. rewrite !eval_desc_app, desc_prefix.
+  rewrite (desc_fields g x _ N).
+  - unfold ext_error_head, error_msg_part, eval_desc. simpl. rewrite app_nil_r. reflexivity.
+  - intros f H. apply print_member in H. exact (proj1 H).
+Qed.
+
+Lemma clone_name_member fs f :
+  NoDup (map f_name fs) -> In f fs ->
+  existsb (str_eqb (f_name f)) (expected_primary fs) = f_clone f.
+Proof.
+  intros N I. unfold expected_primary.
+  destruct (f_clone f) eqn:C.
+  - apply existsb_exists. exists (f_name f). split; [|apply str_eqb_refl].
+    apply in_map. eapply Permutation_in; [apply Permutation_sym, sort_perm|].
+    apply filter_In. split; assumption.
+  - destruct (existsb (str_eqb (f_name f)) (map f_name (sort_fields (filter f_clone fs)))) eqn:E; [|reflexivity].
+    apply existsb_exists in E as [n [Hn En]]. apply str_eqb_eq in En. subst n.
+    apply in_map_iff in Hn as [f' [Hname Hin]].
+    assert (Hin' : In f' (filter f_clone fs)) by (eapply Permutation_in; [apply sort_perm|exact Hin]).
+    apply filter_In in Hin' as [If' Cf'].
+    (* two fields of one struct with the same name are the same field *)
+    assert (f' = f).
+    { clear -N I If' Hname. induction fs as [|h t IH]; [destruct I|].
+      simpl in N. inversion N as [|? ? Hh Nt]; subst.
+      destruct I as [->|I], If' as [->|If']; auto.
+      - exfalso. apply Hh. rewrite <- Hname. apply in_map. exact If'.
+      - exfalso. apply Hh. rewrite Hname. apply in_map. exact I. }
+    subst f'. congruence.
+Qed.
+
+Lemma desc_primary x :
+  NoDup (map f_name (x_fields x)) ->
+  primary_by_names (expected_primary (x_fields x)) x = to_primary x.
+Proof.
+  intros N. unfold primary_by_names, to_primary. f_equal.
+  apply map_ext_in. intros f I. rewrite (clone_name_member _ f N I). reflexivity.
+Qed.
+
+(* a field that shadows a member of the embedded GError never reaches the base part: the items
+   of the expected description before and after the print list select base members only *)
+Lemma expected_desc_base_part fs :
+  exists mid, expected_desc fs
+    = [PIf lit_name (PBase BName) lit_sep; PIf lit_dtag (PBase BDTag) lit_sep;
+       PIf lit_source (PBase BSource) lit_sep] ++ mid
+      ++ [PMsg lit_message (PBase BMessage); PStack (PBase BStack)]
+    /\ Forall (fun it => match it with PField _ _ _ => True | _ => False end) mid.
+Proof.
+  eexists. split; [reflexivity|]. apply Forall_forall. intros it H.
+  apply in_map_iff in H as [f [<- _]]. exact I.
+Qed.
+
+(* ---------------------------------------------------------------- a declarative print specification *)
+(* What the property says about Error(), without reference to how the generator computes it: the
+   head is the base prefix, then one segment per print-tagged field — SOME arrangement of exactly
+   those fields that is ordered by field name —, then the message part.  [print_spec_holds]: the
+   model's rendering satisfies it; [print_spec_unique]: for a struct (distinct field names) at most
+   one text does, so comparing an observed head with the model's rendering decides the
+   declarative specification. *)
+Definition print_spec (fs : list xfield) (g : gerr) (h : str) : Prop :=
+  exists l, Permutation l (filter f_print fs) /\ Sorted name_le l
+            /\ h = error_prefix g ++ concat (map field_segment l) ++ error_msg_part g.
+
+Lemma print_spec_holds g x : print_spec (x_fields x) g (ext_error_head g x).
+Proof.
+  exists (fields_to_print (x_fields x)). split; [apply print_exactly|]. split; [apply print_sorted|reflexivity].
+Qed.
+
+(* the order on names is a total order *)
+Lemma str_le_antisym a : forall b, str_ltb a b = false -> str_ltb b a = false -> a = b.
+Proof.
+  induction a as [|x a IH]; intros [|y b] H1 H2; simpl in *; try discriminate; [reflexivity|].
+  destruct (N.ltb_spec x y) as [L|L]; [discriminate|].
+  destruct (N.ltb_spec y x) as [L2|L2]; [discriminate|].
+  assert (x = y) by (apply N.le_antisymm; assumption). subst y.
+  rewrite N.eqb_refl in *. f_equal. apply IH; assumption.
+Qed.
+
+Lemma str_le_trans a : forall b c, str_ltb b a = false -> str_ltb c b = false -> str_ltb c a = false.
+Proof.
+  induction a as [|x a IH]; intros b c H1 H2.
+  - destruct c; reflexivity.
+  - destruct b as [|y b]; [simpl in H1; discriminate|].
+    destruct c as [|z c]; [simpl in H2; discriminate|].
+    simpl in *.
+    destruct (N.ltb_spec y x) as [Lyx|Lyx]; [discriminate|].
+    destruct (N.ltb_spec z y) as [Lzy|Lzy]; [discriminate|].
+    destruct (N.ltb_spec z x) as [Lzx|Lzx]; [exfalso; apply (N.lt_irrefl z); eapply N.lt_le_trans; [exact Lzx|];
+                                             eapply N.le_trans; eassumption|].
+    destruct (N.eqb_spec z x) as [->|Nzx]; [|reflexivity].
+    assert (y = x) by (apply N.le_antisymm; assumption). subst y.
+    rewrite N.eqb_refl in *. eapply IH; eassumption.
+Qed.
+
+Lemma name_le_trans a b c : name_le a b -> name_le b c -> name_le a c.
+Proof. unfold name_le. intros H1 H2. eapply str_le_trans; eassumption. Qed.
+
+Lemma sorted_strongly l : Sorted name_le l -> StronglySorted name_le l.
+Proof. apply Sorted_StronglySorted. intros a b c. apply name_le_trans. Qed.
+
+(* two name-ordered arrangements of the same fields (distinct names) are the same list *)
+Lemma sorted_perm_unique l1 : forall l2,
+  NoDup (map f_name l1) -> Permutation l1 l2 -> Sorted name_le l1 -> Sorted name_le l2 -> l1 = l2.
+Proof.
+  induction l1 as [|h1 t1 IH]; intros l2 N P S1 S2.
+  - apply Permutation_nil in P. subst. reflexivity.
+  - destruct l2 as [|h2 t2]; [apply Permutation_sym, Permutation_nil in P; discriminate|].
+    apply sorted_strongly in S1 as SS1. apply sorted_strongly in S2 as SS2.
+    inversion SS1 as [|? ? St1 F1]; subst. inversion SS2 as [|? ? St2 F2]; subst.
+    assert (I2 : In h2 (h1 :: t1)) by (eapply Permutation_in; [apply Permutation_sym; exact P|left; reflexivity]).
+    assert (I1 : In h1 (h2 :: t2)) by (eapply Permutation_in; [exact P|left; reflexivity]).
+    assert (Hn : f_name h1 = f_name h2).
+    { destruct I2 as [E|I2]; [rewrite E; reflexivity|].
+      destruct I1 as [E|I1]; [rewrite E; reflexivity|].
+      rewrite Forall_forall in F1, F2.
+      apply str_le_antisym; [exact (F2 h1 I1)|exact (F1 h2 I2)]. }
+    assert (h1 = h2).
+    { destruct I2 as [E|I2]; [exact E|].
+      exfalso. simpl in N. inversion N as [|? ? Hnot _]; subst. apply Hnot. rewrite Hn. apply in_map. exact I2. }
+    subst h2. f_equal.
+    apply IH.
+    + simpl in N. inversion N; assumption.
+    + eapply Permutation_cons_inv. exact P.
+    + inversion S1; assumption.
+    + inversion S2; assumption.
+Qed.
+
+Lemma filter_names_nodup (fs : list xfield) p : NoDup (map f_name fs) -> NoDup (map f_name (filter p fs)).
+Proof.
+  induction fs as [|f fs IH]; intros N; simpl; [constructor|].
+  simpl in N. inversion N as [|? ? Hn Nt]; subst.
+  destruct (p f); simpl; [constructor|]; auto.
+  intros I. apply Hn. apply in_map_iff in I as [f' [E I]]. apply filter_In in I as [I _].
+  rewrite <- E. apply in_map. exact I.
+Qed.
+
+Lemma print_spec_unique fs g h1 h2 :
+  NoDup (map f_name fs) -> print_spec fs g h1 -> print_spec fs g h2 -> h1 = h2.
+Proof.
+  intros N [l1 [P1 [S1 ->]]] [l2 [P2 [S2 ->]]].
+  assert (l1 = l2); [|subst; reflexivity].
+  apply sorted_perm_unique; auto.
+  - eapply Permutation_NoDup; [apply Permutation_map, Permutation_sym; exact P1|].
+    apply filter_names_nodup. exact N.
+  - eapply Permutation_trans; [exact P1|apply Permutation_sym; exact P2].
+Qed.
+
+(* hence: an observed head satisfies the declarative specification iff it is the model's text *)
+Lemma print_spec_decided g x h :
+  NoDup (map f_name (x_fields x)) -> (print_spec (x_fields x) g h <-> h = ext_error_head g x).
+Proof.
+  intros N. split.
+  - intros H. apply (print_spec_unique (x_fields x) g); [exact N|exact H|apply print_spec_holds].
+  - intros ->. apply print_spec_holds.
 Qed.
